@@ -400,6 +400,15 @@ fn history_independence(ctx: &mut Ctx, buf: &[u8], o: &Opts) {
 
 /// Everything about one buffer.  Returns what happened (for workload statistics).
 pub fn check_buffer(ctx: &mut Ctx, buf: &[u8], o: &Opts) -> Outcome {
+    // the whole case is a watchdog region: a call that does not return anywhere in the inspection of
+    // this buffer (formatting, iteration adaptors, lookups ...) is attributed to the buffer
+    let opened = ctx.wd.enter_case("inspect-all(Message::from_bytes, then every read-only operation)", buf);
+    let out = check_buffer_inner(ctx, buf, o);
+    ctx.wd.leave_case(opened);
+    out
+}
+
+fn check_buffer_inner(ctx: &mut Ctx, buf: &[u8], o: &Opts) -> Outcome {
     history_independence(ctx, buf, o);
     let mut out = Outcome::default();
     let rp = ref_parse(buf);
